@@ -167,6 +167,13 @@ def run_h5(ctx, rng, idx):
         ctx.violation('h5.keys', 'stored keys not sorted / wrong count')
     ksel = [int(x) for x in rng.choice(nrows, size=int(rng.integers(
         1, min(nrows, 6) + 1)), replace=False)]
+    if rng.random() < 0.3:
+        # rows drawn with replacement (a bootstrap sample of trajectories):
+        # a repeated key is a repeated row
+        ksel = [int(x) for x in rng.integers(0, nrows, size=int(
+            rng.integers(2, 8)))]
+        ksel[-1] = ksel[0]
+        ctx.count('key_subsets_with_repeats')
     try:
         sub = ra.load(fn, keys=[keys[i] for i in ksel], stride=stride)
         rows_equal(ctx, sub, [rows[i][::stride] for i in ksel],
